@@ -445,7 +445,7 @@ Ltac t_WP :=
   | |- WP (upd_inv _ _ _) =>
     apply WP_upd_inv; [first [ (match goal with Hf : inv_upd _ |- _ => destruct Hf; intros ?; reflexivity end) | (intros ?; reflexivity) ] | assumption]
   | |- WP (upd_scq _ _ _) =>
-    apply WP_upd_scq_keep; [intros q; first [ (cbn; split; [reflexivity | auto]) | (destruct (existsb _ (q_drains q)); cbn; split; [reflexivity | auto]) ] | assumption]
+    apply WP_upd_scq_keep; [intros q; first [ (cbn; split; [reflexivity | auto]) | (destruct (existsb _ (q_drains q)); (cbn; split; [reflexivity | auto])) ] | assumption]
   | |- WP (set s_invs (fun l => l ++ [(_, new_inv _)]) _) => apply WP_invs_new; assumption
   | |- WP (set s_invs (fun _ => adel iref_eqb _ _) _) =>
     apply WP_invs_del; [match goal with HS : St _ |- _ => destruct HS as [_ [_ [Hn _]]]; exact Hn end | assumption]
@@ -709,4 +709,49 @@ Lemma SW_enter : forall t s, SW s -> SW (enter t s).
 Proof.
   intros t s H. unfold enter. destruct (s_now s <? t); [|exact H]. cbv zeta.
   apply cleanup_run_closed; [intros; t_SW | intros; apply SW_run_entry; assumption | sw_go2].
+Qed.
+
+(* ---- the sections of Synchronize calls --------------------------------------------------------------------- *)
+Lemma SW_setcall_plain : forall s c p', sync_of p' = None -> SW s -> SW (set_call c p' s).
+Proof.
+  intros s c p' Hp [HS [A2 [A3 [B1 [B5 [B3 [X8 [X8n E7]]]]]]]]. split; [eapply St_frame; [ | | |exact HS]; reflexivity|].
+  assert (Hd : drained_of p' = None) by (destruct p'; try reflexivity; discriminate).
+  assert (Hold : forall c' p, aget Nat.eqb c' (s_calls (set_call c p' s)) = Some p -> sync_of p <> None \/ drained_of p <> None ->
+                 aget Nat.eqb c' (s_calls s) = Some p /\ c' <> c).
+  { intros c' p Hc Hs. unfold set_call in Hc. cbn in Hc. rewrite (aget_aset Nat.eqb nat_eqb_eq) in Hc.
+    destruct (Nat.eqb c' c) eqn:E; [inversion Hc; subst; destruct Hs; congruence|].
+    split; [exact Hc|apply Nat.eqb_neq; exact E]. }
+  unfold WP. change (get_worker (set_call c p' s)) with (get_worker s). change (worker_exists (set_call c p' s)) with (worker_exists s).
+  change (get_inv (set_call c p' s)) with (get_inv s). change (get_scq (set_call c p' s)) with (get_scq s). wp_split; auto.
+  - intros c' p w Hc Hs. destruct (Hold _ _ Hc) as [Hc' _]; [left; congruence|]. eapply A2; eassumption.
+  - intros c1 c2 p1 p2 w H1 H2 Hs1 Hs2. destruct (Hold _ _ H1) as [H1' _]; [left; congruence|].
+    destruct (Hold _ _ H2) as [H2' _]; [left; congruence|]. eapply A3; eassumption.
+  - intros c' p w Hc Hdr. destruct (Hold _ _ Hc) as [Hc' _]; [right; congruence|]. eapply B3; eassumption.
+Qed.
+
+Definition only_names (c : nat) (w : wref) (s : state) : Prop :=
+  forall c' p, aget Nat.eqb c' (s_calls s) = Some p -> sync_of p = Some w -> c' = c.
+
+Lemma SW_setcall_sync : forall s c p' w, sync_of p' = Some w ->
+  worker_exists s w = true -> k_cleanup (get_worker s w) = None ->
+  (drained_of p' = Some w -> k_wait (get_worker s w) = false) ->
+  only_names c w s -> SW s -> SW (set_call c p' s).
+Proof.
+  intros s c p' w Hp Hex Hcn Hdw Hon [HS [A2 [A3 [B1 [B5 [B3 [X8 [X8n E7]]]]]]]]. split; [eapply St_frame; [ | | |exact HS]; reflexivity|].
+  assert (Hd : forall w', drained_of p' = Some w' -> w' = w).
+  { intros w' H. destruct p'; try discriminate; cbn in *; try destruct queued; congruence. }
+  assert (Hcase : forall c' p, aget Nat.eqb c' (s_calls (set_call c p' s)) = Some p ->
+                 (c' = c /\ p = p') \/ (aget Nat.eqb c' (s_calls s) = Some p /\ c' <> c)).
+  { intros c' p Hc. unfold set_call in Hc. cbn in Hc. rewrite (aget_aset Nat.eqb nat_eqb_eq) in Hc.
+    destruct (Nat.eqb c' c) eqn:E; [left; apply Nat.eqb_eq in E; inversion Hc; auto|right; split; [exact Hc|apply Nat.eqb_neq; exact E]]. }
+  unfold WP. change (get_worker (set_call c p' s)) with (get_worker s). change (worker_exists (set_call c p' s)) with (worker_exists s).
+  change (get_inv (set_call c p' s)) with (get_inv s). change (get_scq (set_call c p' s)) with (get_scq s). wp_split; auto.
+  - intros c' p w' Hc Hs. destruct (Hcase _ _ Hc) as [[-> ->]|[Hc' _]]; [|eapply A2; eassumption].
+    rewrite Hp in Hs. inversion Hs; subst. auto.
+  - intros c1 c2 p1 p2 w' H1 H2 Hs1 Hs2.
+    destruct (Hcase _ _ H1) as [[-> ->]|[H1' N1]], (Hcase _ _ H2) as [[-> ->]|[H2' N2]]; [reflexivity| | |eapply A3; eassumption].
+    + rewrite Hp in Hs1. inversion Hs1; subst. symmetry. eapply Hon; eassumption.
+    + rewrite Hp in Hs2. inversion Hs2; subst. eapply Hon; eassumption.
+  - intros c' p w' Hc Hdr. destruct (Hcase _ _ Hc) as [[-> ->]|[Hc' _]]; [|eapply B3; eassumption].
+    rewrite (Hd _ Hdr). apply Hdw. rewrite <- (Hd _ Hdr). exact Hdr.
 Qed.
